@@ -192,7 +192,7 @@ func (a *slackFn) isLenData(e ast.Expr) bool {
 	if !ok {
 		return false
 	}
-	if b, ok := a.inf.Uses[id].(*types.Builtin); !ok || b.Name() != "len" {
+	if b, ok := a.inf.Uses[id].(*types.Builtin); !ok || core.NameOf(b) != "len" {
 		return false
 	}
 	return a.isData(call.Args[0])
@@ -888,7 +888,7 @@ func (a *slackFn) run() {
 func (a *slackFn) checkIntReturn(s slackState, sig *types.Signature, ret *ast.ReturnStmt) {
 	ok := false
 	if len(ret.Results) == 0 {
-		if v := sig.Results().At(0); v.Name() != "" {
+		if v := sig.Results().At(0); core.NameOf(v) != "" {
 			ok = s.rel[v] >= relLE
 		}
 	} else if len(ret.Results) == sig.Results().Len() {
